@@ -70,7 +70,7 @@ Proof. vm_compute. reflexivity. Qed.
     Accept-Encoding class), every handler status but 304, every state of the response cache that is absent or
     holds this page, both arithmetic modes and every history of GET/HEAD/other-method requests with any number
     of Range header lines of arbitrary value, with or without If-Modified-Since: each reply is 416 when the
-    (first) Range line has start > end; else the 304 that the same request without Range receives; else
+    (last) Range line has start > end; else the 304 that the same request without Range receives; else
     [range_spec] of the representation that a request WITHOUT Range receives under the same Accept-Encoding. *)
 Theorem range_conn_correct : forall (checked caching : bool) (status : N) (pg : page) (cache : option page) (reqs : list rreq),
   page_fits pg -> cache_ok pg cache -> status <> 304 ->
@@ -104,7 +104,7 @@ Theorem range_slice_of_unranged : forall (pg : page) (ae : N) (v : bytes) (more 
   parse_range v = Some (a, c) -> a <= c -> a < N.of_nat (length (rp_body (choose pg ae))) ->
   exists full part,
     reply_spec 200 pg false {| rq_method := GET; rq_ae := ae; rq_ranges := []; rq_ims := 0 |} = WResp full /\
-    reply_spec 200 pg false {| rq_method := GET; rq_ae := ae; rq_ranges := v :: more; rq_ims := 0 |} = WResp part /\
+    reply_spec 200 pg false {| rq_method := GET; rq_ae := ae; rq_ranges := more ++ [v]; rq_ims := 0 |} = WResp part /\
     w_status full = 200 /\ w_status part = 206 /\
     w_content_encoding part = w_content_encoding full /\
     w_body part = firstn (N.to_nat (N.min c (w_content_length full - 1) - a + 1)) (skipn (N.to_nat a) (w_body full)) /\
@@ -137,12 +137,12 @@ Theorem range_conditional_063_refuted :
     fst (rstep_063 true true 200 pg (Some pg) q) = Ok W416.
 Proof. exact conditional_063_refuted. Qed.
 
-(** Several Range header lines: only the first one is looked at. *)
-Theorem range_first_line : forall (checked caching : bool) (status : N) (pg : page) (cache : option page) (m : meth) (ae : N)
+(** Several Range header lines (HTTP/1.1): only the last one is looked at. *)
+Theorem range_last_line : forall (checked caching : bool) (status : N) (pg : page) (cache : option page) (m : meth) (ae : N)
     (v : bytes) (more : list bytes) (ims : N),
-  rstep checked caching status pg cache {| rq_method := m; rq_ae := ae; rq_ranges := v :: more; rq_ims := ims |}
+  rstep checked caching status pg cache {| rq_method := m; rq_ae := ae; rq_ranges := more ++ [v]; rq_ims := ims |}
   = rstep checked caching status pg cache {| rq_method := m; rq_ae := ae; rq_ranges := [v]; rq_ims := ims |}.
-Proof. exact first_range_line. Qed.
+Proof. exact last_range_line. Qed.
 
 (** Files streamed by [extensions::stream_body] (repaired): every request is answered by the property's
     [range_spec] of the file's bytes — 206 + content-range + the slice, 416, or the whole file. *)
@@ -179,7 +179,7 @@ Example range_conn_ex_history :
       {| rq_method := GET; rq_ae := 0; rq_ranges := [B "bytes=7-2"]; rq_ims := 1 |};
       {| rq_method := GET; rq_ae := 0; rq_ranges := [B "bytes=2-4"]; rq_ims := 1 |};
       {| rq_method := POST; rq_ae := 0; rq_ranges := [B "bytes=2-4"]; rq_ims := 1 |};
-      {| rq_method := HEAD; rq_ae := 1; rq_ranges := [B "bytes=3-100"; B "bytes=0-0"]; rq_ims := 2 |} ]
+      {| rq_method := HEAD; rq_ae := 1; rq_ranges := [B "bytes=0-0"; B "bytes=3-100"]; rq_ims := 2 |} ]
   = Ok [ WResp {| w_status := 200; w_content_range := None; w_content_length := 10;
                   w_content_encoding := Some (B "identity"); w_accept_ranges := true; w_body := B "0123456789" |};
          W416;
